@@ -90,7 +90,15 @@ func c17MakeTree() (*c17Tree, error) {
 
 var c17Segs = []string{"a", "sub", "..", ".", "", "a.b", "..a", "a b"}
 
-func c17Paths(maxSeg int, f func(p string) bool) {
+// c17ForeignSegs: segments with the other platform's separator and with
+// characters a "helpful" normalisation might rewrite. On this platform they
+// are ordinary file names; whatever the locator does with them, it must not
+// open anything outside the root.
+var c17ForeignSegs = []string{"a", "sub", "..", "..\\a", "sub\\..", "..\\..\\a", "%2e%2e", "..;", "a\x00", "~"}
+
+func c17Paths(maxSeg int, f func(p string) bool) { c17PathsOver(c17Segs, maxSeg, f) }
+
+func c17PathsOver(alphabet []string, maxSeg int, f func(p string) bool) {
 	var rec func(segs []string) bool
 	rec = func(segs []string) bool {
 		if len(segs) > 0 {
@@ -106,7 +114,7 @@ func c17Paths(maxSeg int, f func(p string) bool) {
 		if len(segs) == maxSeg {
 			return true
 		}
-		for _, s := range c17Segs {
+		for _, s := range alphabet {
 			if !rec(append(segs, s)) {
 				return false
 			}
@@ -118,7 +126,7 @@ func c17Paths(maxSeg int, f func(p string) bool) {
 
 func init() {
 	register(&Part{Prop: "C17", Name: "resolve", Quick: 16, Thor: 16,
-		Desc: "FileImportLocator.Resolve for every path of <= 5 (thorough 6) segments over {a, sub, .., ., '', a.b, ..a, 'a b'} with optional leading/trailing slash, for 7 root spellings (absolute, trailing slash, relative, ./, ., nested with .., empty); oracle: own lexical normaliser + recorded file-system calls",
+		Desc: "FileImportLocator.Resolve for every path of <= 5 (thorough 6) segments over {a, sub, .., ., '', a.b, ..a, 'a b'} with optional leading/trailing slash, for 7 root spellings (absolute, trailing slash, relative, ./, ., nested with .., empty), plus every path of <= 3 segments over 10 segments with foreign separators and encodings (..\\a, sub\\.., %2e%2e, ..;, NUL, ~); oracle: own lexical normaliser + recorded file-system calls",
 		Rule: "paths enumerated exhaustively by an odometer over the segment alphabet; non-trivial = the path lexically leaves the root at some prefix or names an existing file",
 		Run:  c17Run,
 		Replay: func(c *Ctx, in string) {
@@ -222,6 +230,17 @@ func c17Run(c *Ctx) {
 	lastCwd := ""
 	for _, r := range roots {
 		c17Paths(maxSeg, func(p string) bool {
+			if !c.Mine() {
+				return !c.Stopped()
+			}
+			if r.cwd != lastCwd {
+				os.Chdir(r.cwd)
+				lastCwd = r.cwd
+			}
+			c17Check(c, r, p)
+			return true
+		})
+		c17PathsOver(c17ForeignSegs, 3, func(p string) bool {
 			if !c.Mine() {
 				return !c.Stopped()
 			}
